@@ -619,9 +619,9 @@ fn pow_ref(a: Q, n: BigRational) -> Result<Q, RefErr> {
     if n.unsigned_abs() > 1024 {
         return Err(RefErr::Unspecified("huge exponent"));
     }
-    // size guard: the exact result would have more than ~200k bits
+    // size guard: the exact result would have more than ~40k bits (the tool multiplies |n| times; under load such a case can take longer than the watchdog allows)
     let bits = a.si.numer().bits().max(a.si.denom().bits());
-    if bits.saturating_mul(n.unsigned_abs()) > 200_000 {
+    if bits.saturating_mul(n.unsigned_abs()) > 40_000 {
         return Err(RefErr::Unspecified("result too large"));
     }
     if n < 0 && a.si.is_zero() {
